@@ -1,6 +1,7 @@
 """C11 - anytime algorithms are safe to interrupt and only ever improve."""
 import random
 from runtime import harness as H
+from props import _ded as D
 from runtime import t3_part as T
 from runtime.common import CG_SWITCHES
 
@@ -25,4 +26,5 @@ def t3(rep, tier, seed):
 def run(rep, tier, seed):
     rep.level = "exploration"
     rep.assume("A1", "A4", "A6", "A8")
+    D.run_static(rep, "C11", ("clock", "purity"), only_files=("complete_greedy.py", "cbldm.py", "complete_karmarkar_karp_sy.py", "karmarkar_karp_sy.py"))
     t3(rep, tier, seed)
